@@ -308,7 +308,7 @@ def node_model(eng, st, pos, kw):
 def _derive(eng, st, old, attrs=None, kids=None):
     r = z3.FreshConst(XNODE.sort(), "node")
     st = st.assume(z3.And(
-        f_type()(r) == f_type()(old), f_tag()(r) == f_tag()(old),
+        f_type()(r) == f_type()(old), f_tag()(r) == f_tag()(old), f_data()(r) == f_data()(old),
         f_attrs()(r) == (attrs if attrs is not None else f_attrs()(old)),
         f_kids()(r) == (kids if kids is not None else f_kids()(old))))
     return st, OpaqueV(XNODE, r)
